@@ -306,7 +306,7 @@ common::register! {
     q_unknown_rr = unknown_rr::<_, false> => 4,
     q_app_sr_unknown = app_sr_unknown => 5,
     q_fb_wrapped = fb_wrapped => 4,
-    q_sdes_last = sdes_member::<_, true> => 4,
+    t_sdes_last = sdes_member::<_, true> => 4,
     q_sdes_first = sdes_member::<_, false> => 4,
     q_nested_foreign = nested_foreign => 4,
     t_rr_bye_parse_0 = rr_bye::<_, true, 0> => 4,
